@@ -1,6 +1,6 @@
 // Probe for property C05 (finding D12): the did_url_parser 0.3.0 dependency skips one extra character
 // after a percent-encoded triple, so a triple at the very end of the method id leaves its cursor past
-// the end of the input and a later slice panics. Reached from CoreDID::parse, DIDUrl::parse, DIDUrl::join.
+// the end of the input and a later slice panics. Reached from CoreDID::parse, DIDUrl::parse, DIDUrl::join and the derived Deserialize of CoreDID.
 use identity_did::CoreDID;
 use identity_did::DIDUrl;
 use std::panic::catch_unwind;
@@ -25,4 +25,12 @@ fn did_url_join_on_accepted_did_with_trailing_pct_triple() {
   let base = DIDUrl::new(did, None);
   let r = catch_unwind(|| base.join("/x").map(|d| d.to_string()));
   assert!(r.is_ok(), "DIDUrl::join panicked");
+}
+
+#[test]
+fn core_did_deserialize_trailing_pct_triple() {
+  // D12d: `#[serde(try_from = "BaseDIDUrl")]` — the derived Deserialize of CoreDID runs the dependency's own Deserialize, i.e. the
+  // same parser, without passing through CoreDID::parse. Every type with a CoreDID member (documents, credentials, ...) inherits it.
+  let r = catch_unwind(|| serde_json::from_str::<CoreDID>("\"did:example:a%41\"").map(|d| d.to_string()).map_err(|e| e.to_string()));
+  assert!(r.is_ok(), "Deserialize for CoreDID panicked");
 }
